@@ -12,6 +12,7 @@
  *   stat                   NUM n DEPTH d ROOT id SOON sec nsec
  */
 #include <stdio.h>
+#include <sys/time.h>
 #include <unistd.h>
 #include <stdlib.h>
 #include <string.h>
@@ -192,13 +193,22 @@ static void do_op(char *line)
 	}
 }
 
+static void verif_watchdog(int cpu_s, int wall_s)
+{
+	/* a library call that spins is cut by the CPU-time limit (independent of how loaded the machine is); one that sleeps for
+	 * ever by the generous wall-clock limit */
+	struct itimerval it = { { 0, 0 }, { cpu_s, 0 } };
+	setitimer(ITIMER_PROF, &it, NULL);
+	alarm(wall_s);
+}
+
 int main(void)
 {
 	static char line[4096];
 
 	setvbuf(stdout, NULL, _IOFBF, 1 << 16);
 	iv_set_fatal_msg_handler(fatal_handler);
-	alarm(60);	/* watchdog: a library call that does not return ends the run with SIGALRM */
+	verif_watchdog(120, 300);
 	iv_init();
 	while (fgets(line, sizeof(line), stdin) != NULL)
 		do_op(line);
